@@ -463,3 +463,6 @@ func (c *Ctx) MethodsOf(typeRef string) []*Fn {
 	}
 	return out
 }
+
+// KV prints a string map as "k: v, …" in key order.
+func KV(m map[string]string) string { return kvString(m) }
